@@ -655,6 +655,7 @@ class _BaseWindowForecaster(_SktimeForecaster):
         y_pred : pd.Series or pd.DataFrame
         """
         self.check_is_fitted()
+        y = check_y(y)  # as in the base class's update_predict
         if cv is not None:
             cv = check_cv(cv)
         else:
